@@ -27,7 +27,9 @@ FLAVORS = {
 }
 COMMON = ['-std=c++17', '-O1', '-g', '-Wall', '-Wno-unused-variable', '-Wno-unused-but-set-variable',
           '-Wno-unused-lambda-capture', '-Wno-unused-value', '-Wno-unused-parameter']
-LINK = ['-Wl,--wrap=pthread_mutex_lock', '-Wl,--wrap=pthread_mutex_unlock', '-Wl,--wrap=pthread_mutex_trylock', '-lpthread']
+LINK = ['-Wl,--wrap=pthread_mutex_lock', '-Wl,--wrap=pthread_mutex_unlock', '-Wl,--wrap=pthread_mutex_trylock',
+        '-Wl,--wrap=pthread_rwlock_rdlock', '-Wl,--wrap=pthread_rwlock_wrlock', '-Wl,--wrap=pthread_rwlock_tryrdlock',
+        '-Wl,--wrap=pthread_rwlock_trywrlock', '-Wl,--wrap=pthread_rwlock_unlock', '-lpthread']
 
 SAN_ENV = {
     'ASAN_OPTIONS': 'detect_stack_use_after_return=1:detect_leaks=0:abort_on_error=0:exitcode=97:allocator_may_return_null=1',
@@ -198,6 +200,9 @@ def _classify(output, generated_names):
     lines = output.splitlines()
     for i, line in enumerate(lines):
         if 'undefined reference' in line:
+            sym = re.search(r"undefined reference to `([^']*)'", line)
+            if sym and re.match(r'(__real_|__wrap_|sim_|__tsan|__asan|__ubsan|__sanitizer|harness::|Model::)', sym.group(1)):
+                return 'harness:link:' + sym.group(1)[:60]   # the simulator's own link set-up, not dznpy's output
             return 'generated'
         m = pos.match(line.strip())
         if not m or m.group(4) != 'error':
